@@ -120,20 +120,22 @@ IsDropped(o, line) == line = <<>> \/ (o.comment /\ line[1] = HASH)
 Remaining(t, o) == LET ls == PhysLines(t) IN
                    SelectSeq([i \in DOMAIN ls |-> i - 1], LAMBDA ph : ~IsSkipped(o, ph) /\ ~IsDropped(o, ls[ph + 1]))
 
-ReadErr == [err |-> TRUE, hdr |-> <<>>, rows |-> <<>>]
+\* lax: the header row named by header = k does not exist because nothing remains after skiprows; pandas answers an
+\* empty frame when names are given (and raises when they are not): an exception is accepted as well
+ReadErr == [err |-> TRUE, lax |-> FALSE, hdr |-> <<>>, rows |-> <<>>]
 ReadOpts(t, o) ==
   LET ls  == PhysLines(t)
       rem == Remaining(t, o)
       eff == EffHeader(o)
       dataFrom(k) == [r \in 1..(Len(rem) - k) |-> FieldsOf(ls[rem[k + r] + 1])]
   IN IF rem = <<>>                                                 \* nothing to parse: pandas raises, unless the labels are given
-     THEN IF o.names THEN [err |-> FALSE, hdr |-> SubSeq(GivenNames, 1, o.nc), rows |-> <<>>] ELSE ReadErr
+     THEN IF o.names THEN [err |-> FALSE, lax |-> eff >= 0, hdr |-> SubSeq(GivenNames, 1, o.nc), rows |-> <<>>] ELSE ReadErr
      ELSE IF eff = -2
      THEN LET nc == Len(FieldsOf(ls[rem[1] + 1])) IN
-          [err |-> FALSE, hdr |-> IF o.names THEN SubSeq(GivenNames, 1, o.nc) ELSE DigitNames(nc), rows |-> dataFrom(0)]
+          [err |-> FALSE, lax |-> FALSE, hdr |-> IF o.names THEN SubSeq(GivenNames, 1, o.nc) ELSE DigitNames(nc), rows |-> dataFrom(0)]
      ELSE IF Len(rem) <= eff THEN ReadErr                          \* the header row does not exist: pandas raises
      ELSE LET hf == FieldsOf(ls[rem[eff + 1] + 1]) IN
-          [err |-> FALSE, hdr |-> IF o.names THEN SubSeq(GivenNames, 1, o.nc) ELSE hf, rows |-> dataFrom(eff + 1)]
+          [err |-> FALSE, lax |-> FALSE, hdr |-> IF o.names THEN SubSeq(GivenNames, 1, o.nc) ELSE hf, rows |-> dataFrom(eff + 1)]
 
 (* Block-wise: the first block is read with the options; a later block no longer has a top of file - skiprows
    and an integer header are not applied to it, the header LINE of the file is put in front of it when the labels
@@ -164,7 +166,7 @@ ReadBlocksOpts(t, o, blocks) ==
   IF Len(blocks) <= 1 THEN ReadOpts(t, o)
   ELSE LET first == ReadOpts(blocks[1], o) IN
        IF first.err THEN ReadErr
-       ELSE [err |-> FALSE, hdr |-> first.hdr,
+       ELSE [err |-> FALSE, lax |-> first.lax, hdr |-> first.hdr,
              rows |-> first.rows \o CatSeqs([b \in 1..(Len(blocks) - 1) |-> LaterRows(blocks[b + 1], o)])]
 ReadByBlocksOpts(t, o, bs) == ReadBlocksOpts(t, o, BlocksByCut(t, <<NL>>, Offsets(Len(t), bs)))
 
